@@ -69,10 +69,12 @@ def probe_frame(rng, obj, X, mode):
 MODES = ["inside", "inside", "nan", "unseen", "mixed", "all_unseen", "empty", "one", "missing_col", "train"]
 
 
-def rejection_justified(obj, Xn, markers):
+def rejection_justified(obj, Xn, markers, train=None):
     """does the frame give transform a reason the property allows for an AssertionError: an unseen category of a feature
     without default group, or a missing value in a feature that had none at fit?  `markers` = (str_nan, str_default) of the
-    object as it was fitted (a reloaded object must still know them)."""
+    object as it was fitted (a reloaded object must still know them).  A feature has a default group when the marker the
+    object was built with leads a group -- or when the library's own default marker does although no training row holds it
+    (`train`): a default group made under another name than the object's is a default group all the same."""
     str_nan, str_default = markers
     for raw, casts in obj.features_casting.items():
         if raw not in Xn.columns:
@@ -86,7 +88,10 @@ def rejection_justified(obj, Xn, markers):
                 return True
             if f in obj.qualitative_features:
                 unseen = [v for v in col.dropna().tolist() if v not in vals]
-                if unseen and not (str_default is not None and str_default in vals):
+                has_default = str_default is not None and str_default in vals
+                if not has_default and train is not None and raw in train.columns and "__OTHER__" in list(obj.values_orders[f]):
+                    has_default = "__OTHER__" not in set(train[raw].dropna().tolist())
+                if unseen and not has_default:
                     return True
             else:
                 if any(isinstance(v, str) for v in col.dropna().tolist()):
@@ -94,9 +99,9 @@ def rejection_justified(obj, Xn, markers):
     return False
 
 
-def check_probe(drv, obj, Xn, mode, markers=None):
+def check_probe(drv, obj, Xn, mode, markers=None, train=None):
     fails, out, err, msg, Xt = fitgen.compare_transform(drv, obj, Xn, f" (probe frame '{mode}')")
-    if err == "AssertionError" and mode != "missing_col" and markers is not None and not rejection_justified(obj, Xn, markers):
+    if err == "AssertionError" and mode != "missing_col" and markers is not None and not rejection_justified(obj, Xn, markers, train):
         fails.append({"kind": "property", "what": f"transform rejected a frame although every unseen category has a default group and no "
                       f"missing value is unexpected (probe '{mode}')", "error": msg[:300]})
     # the judge, on the implementation alone
@@ -156,7 +161,7 @@ def worker(args):
                     pass
             for mode in rng.sample(MODES, 4):
                 Xn = X.copy() if mode == "train" else probe_frame(rng, obj, X, mode)
-                fs, err = check_probe(drv, obj, Xn, mode, markers)
+                fs, err = check_probe(drv, obj, Xn, mode, markers, X)
                 stats["cases"] += 1
                 stats["modes"][mode] = stats["modes"].get(mode, 0) + 1
                 stats["outcomes"][err or "ok"] = stats["outcomes"].get(err or "ok", 0) + 1
